@@ -223,29 +223,30 @@ impl LuaGreenNodeBuilder<'_> {
 
     #[inline]
     pub fn finish(mut self, text: &str) -> GreenNode {
-        if let Some(root_pos) = self.children.first() {
-            let is_chunk_root = matches!(
-                self.elements[*root_pos],
+        let is_chunk_root = self.children.len() == 1
+            && matches!(
+                self.elements[self.children[0]],
                 LuaGreenElement::Node {
                     kind: LuaSyntaxKind::Chunk,
                     ..
                 }
             );
-            if !is_chunk_root {
-                self.builder.start_node(LuaSyntaxKind::Chunk.into());
-            }
+        let root_pos = if is_chunk_root {
+            self.children[0]
+        } else {
+            // After error recovery there can be several top-level elements (or none, or a
+            // single one that is not a chunk): wrap all of them in the `Chunk` root, so
+            // that no token is dropped from the tree.
+            let children = std::mem::take(&mut self.children);
+            let pos = self.elements.len();
+            self.elements.push(LuaGreenElement::Node {
+                kind: LuaSyntaxKind::Chunk,
+                children,
+            });
+            pos
+        };
 
-            self.build_rowan_green(*root_pos, text);
-
-            if !is_chunk_root {
-                self.builder.finish_node();
-            }
-
-            return self.builder.finish();
-        }
-
-        self.builder.start_node(LuaSyntaxKind::Chunk.into());
-        self.builder.finish_node();
+        self.build_rowan_green(root_pos, text);
         self.builder.finish()
     }
 }
